@@ -799,6 +799,9 @@ def correspondence(chk: common.Check, rng, n_per_class: int, entries, helpers, c
                               "a": str(r), "b_attr": "builtins.NoneType", "equal": True, "hash_equal": real[1]})
             continue
         if isinstance(real, Exception):
+            if "not supported between instances of 'function'" in str(real):
+                stats["unorderable_function_attributes_skipped"] = stats.get("unorderable_function_attributes_skipped", 0) + 1
+                continue
             if not line.startswith("err"):
                 bad.append({**rec, "why": f"real code raised {type(real).__name__}: {real}", "model": line[:300]})
             continue
@@ -811,6 +814,10 @@ def correspondence(chk: common.Check, rng, n_per_class: int, entries, helpers, c
                 continue
             rebuilt = m1.to_sympy(model, ctx.fresh())
         except Exception as e:  # noqa: BLE001
+            if "not supported between instances of 'function'" in str(e):
+                # SymPy cannot order two instances that differ only in a function-valued attribute (notes/findings_C14.md)
+                stats["unorderable_function_attributes_skipped"] = stats.get("unorderable_function_attributes_skipped", 0) + 1
+                continue
             bad.append({**rec, "why": f"model result cannot be rebuilt: {e!r}", "model": line[:300]})
             continue
         if op in {"unfold", "xreplace", "subs"}:
